@@ -389,8 +389,15 @@ def eqWith (shortcut : Bool) (locks : List LockRef) (cmpIdx : Nat × Nat)
         | _, _ => .error .ub
       | _, _ => .error .ub
 
-def typedEq : St → Nat → Nat → E (Out × St) :=
-  eqWith Gen.ListLocks.typedEqShortcut Gen.ListLocks.typedEqLocks Gen.ListLocks.typedEqCompare rawEqTyped
+/-- `List<T>::eq` (as `erasedEq`: the allocation index stands for the address
+    should the source order its locks by address) -/
+def typedEq (s : St) (x y : Nat) : E (Out × St) :=
+  if x < y then
+    eqWith Gen.ListLocks.typedEqShortcut Gen.ListLocks.typedEqLocksLt Gen.ListLocks.typedEqCompareLt
+      rawEqTyped s x y
+  else
+    eqWith Gen.ListLocks.typedEqShortcut Gen.ListLocks.typedEqLocksGe Gen.ListLocks.typedEqCompareGe
+      rawEqTyped s x y
 
 /-- `ErasedList::eq`. Where the source orders its two `lock()` calls by the
     address of the mutexes, the model takes the allocation index as the address;
